@@ -242,14 +242,7 @@ async fn main() {
         }
         last_known_header
     } else {
-        let best = validate_best_block_header(&derefed).await.unwrap();
-        // First bootstrap: persist the block we start from. Otherwise a restart before the first new tip has been fully
-        // processed would start over from whatever the best block is by then, skipping the blocks in between.
-        dbm.lock()
-            .unwrap()
-            .store_last_known_block(&best.header.block_hash())
-            .unwrap();
-        best
+        validate_best_block_header(&derefed).await.unwrap()
     };
 
     // DISCUSS: This is not really required (and only triggered in regtest). This is only in place so the caches can be
@@ -269,6 +262,15 @@ async fn main() {
         tip.header.block_hash(),
         tip.height
     );
+
+    // First bootstrap: persist the block we start from. Otherwise a restart before the first new tip has been fully
+    // processed would start over from whatever the best block is by then, skipping the blocks in between.
+    if last_known_block.is_none() {
+        dbm.lock()
+            .unwrap()
+            .store_last_known_block(&tip.header.block_hash())
+            .unwrap();
+    }
 
     // Build components
     let gatekeeper = Arc::new(Gatekeeper::new(
